@@ -146,7 +146,7 @@ func runC06(rowsFile string, reserved map[string]map[string]bool, b *hc.Builder)
 					return ptr, err
 				}
 				otherSeen := false
-				err = qr.ReadRecord(restlicodec.NewRequiredFields().Add("p", "zz"), func(r restlicodec.Reader, field string) error {
+				err = qr.ReadRecord(requiredFields("p", "zz"), func(r restlicodec.Reader, field string) error {
 					switch field {
 					case "p":
 						return ptr.Interface().(restlicodec.Unmarshaler).UnmarshalRestLi(r)
